@@ -470,10 +470,21 @@ fn threads(a: &Args) {
         }
         write_block(&mut w, &evs);
     }
+    // storm blocks: violators produce thousands of caught borrow violations on one resource
+    // while bystanders do only legal fetches of DISJOINT resources
+    let storms: usize = a.num("storms", 0);
+    let viol: usize = a.num("viol", 30000);
+    let keep: usize = a.num("keep", 30);
+    let mut storm_stats = Vec::new();
+    for b in 0..storms {
+        let (evs, st) = storm_block(&mut rng, blocks + b, viol, keep);
+        write_block(&mut w, &evs);
+        storm_stats.push(st);
+    }
     w.flush().unwrap();
     println!(
         "{}",
-        json!({"blocks":blocks,"thread_calls":tcalls,"syncs":syncs,"aborted_blocks":aborted,"threads_per_block":thread_counts,"max_pending_calls":max_pending,"rounds_on_rayon_workers":rayon_rounds,"calls_overlapping_another":overlapped,
+        json!({"storm_blocks":storm_stats,"blocks":blocks,"thread_calls":tcalls,"syncs":syncs,"aborted_blocks":aborted,"threads_per_block":thread_counts,"max_pending_calls":max_pending,"rounds_on_rayon_workers":rayon_rounds,"calls_overlapping_another":overlapped,
                "outcomes":outcomes,"samples":samples})
     );
 }
@@ -613,4 +624,253 @@ fn thread_body(
         }
     }
     mine
+}
+
+// ------------------------------------------------------------------ storm blocks
+
+/// compact event of a storm thread; `seq` comes from one global SeqCst counter, taken BEFORE
+/// the operation for a call and AFTER it for a return, so the order of sequence numbers is
+/// consistent with real time exactly like a log mutex would be
+#[derive(Clone)]
+struct SEv {
+    seq: u64,
+    call: bool,
+    op: &'static str,
+    ty: u32,
+    dy: u32,
+    g: u32,
+    k: &'static str,
+    why: &'static str,
+    cl: bool,
+}
+
+struct StormCtl {
+    seq: std::sync::atomic::AtomicU64,
+    done: std::sync::atomic::AtomicBool,
+    anomalies: std::sync::atomic::AtomicUsize,
+}
+
+struct StormThread<'a> {
+    t: u32,
+    ctl: &'a StormCtl,
+    world: &'static shred::World,
+    rids: &'a [Vec<shred::ResourceId>],
+    cis: &'a [usize],
+    kept: Vec<SEv>,
+    cycle: Vec<SEv>,
+    next_g: u32,
+    ops: usize,
+}
+
+impl StormThread<'_> {
+    fn seq(&self) -> u64 {
+        self.ctl.seq.fetch_add(1, Ordering::SeqCst)
+    }
+    /// one fetch: call logged before, return after; returns the guard (with its id) if granted
+    fn fetch(&mut self, op: &'static str, real: &'static str, ty: u32, dy: u32) -> (Option<(u32, Box<dyn shredh::worldx::AnyGuard>)>, &'static str, &'static str) {
+        let s0 = self.seq();
+        self.cycle.push(SEv { seq: s0, call: true, op, ty, dy, g: 0, k: "", why: "", cl: false });
+        let id = self.rids[ty as usize - 1][dy as usize].clone();
+        let (world, ci) = (self.world, self.cis[ty as usize - 1]);
+        let r = std::panic::catch_unwind(std::panic::AssertUnwindSafe(|| shredh::worldx::thread_fetch(world, real, ci, id)));
+        self.ops += 1;
+        let s1 = self.seq();
+        match r {
+            Ok(Some(g)) => {
+                self.next_g += 1;
+                let gid = self.t * 1_000_000 + self.next_g;
+                self.cycle.push(SEv { seq: s1, call: false, op, ty, dy, g: gid, k: "guard", why: "", cl: g.cloneable() });
+                (Some((gid, g)), "guard", "")
+            }
+            Ok(None) => {
+                self.cycle.push(SEv { seq: s1, call: false, op, ty, dy, g: 0, k: "none", why: "", cl: false });
+                (None, "none", "")
+            }
+            Err(e) => {
+                let why = panic_why(&*e);
+                self.cycle.push(SEv { seq: s1, call: false, op, ty, dy, g: 0, k: "panic", why, cl: false });
+                (None, "panic", why)
+            }
+        }
+    }
+    fn release(&mut self, gid: u32, g: Box<dyn shredh::worldx::AnyGuard>, ty: u32, dy: u32) {
+        let s0 = self.seq();
+        self.cycle.push(SEv { seq: s0, call: true, op: "drop", ty, dy, g: gid, k: "", why: "", cl: false });
+        let r = std::panic::catch_unwind(std::panic::AssertUnwindSafe(move || drop(g)));
+        let s1 = self.seq();
+        let (k, why) = match r {
+            Ok(()) => ("unit", ""),
+            Err(e) => ("panic", panic_why(&*e)),
+        };
+        self.cycle.push(SEv { seq: s1, call: false, op: "drop", ty, dy, g: 0, k, why, cl: false });
+    }
+    /// end of a cycle (all guards of the cycle released, or a pure failed attempt): keep or forget
+    fn end_cycle(&mut self, keep: bool) {
+        if keep {
+            self.kept.append(&mut self.cycle);
+        } else {
+            self.cycle.clear();
+        }
+    }
+}
+
+/// One storm block.  Compression: only whole CYCLES are dropped from the log - a refused
+/// attempt of a violator (no effect), or an acquire..release cycle of a bystander on resources
+/// that no other thread uses incompatibly - so what remains is still a history of complete
+/// operations whose outcomes do not depend on the omitted ones (on a correct World).  Every
+/// cycle with an outcome other than the expected one is kept.
+fn storm_block(rng: &mut StdRng, b: usize, viol: usize, keep: usize) -> (Vec<Value>, Value) {
+    use std::sync::atomic::{AtomicBool, AtomicU64, AtomicUsize};
+    let (nt, nd) = (2usize, 2usize);
+    let (tys, dyns) = variant(rng, nt, nd, false);
+    let mut d = Driver::new(tys.clone(), dyns.clone());
+    let mut evs = vec![json!({"ev":"reset","src":"storm","nblock":b,"tymap":tys,"xdyn":dyns.iter().map(|x| x.to_string()).collect::<Vec<_>>()})];
+    for ty in 1..=nt as u32 {
+        for dy in 0..nd as u32 {
+            evs.push(d.do_call(&CallSpec { op: "insert_by_id".into(), targ: ty, ty, dy, p: rng.gen_range(1..100), ..Default::default() }));
+        }
+    }
+    // X = (1,0) is the hot resource; (2,0) is only ever borrowed shared; (1,1) and (2,1) are each
+    // borrowed exclusively by ONE bystander only
+    let excl_holder = rng.gen_bool(0.4); // one violator holding X exclusively, else 1-2 holding it shared
+    let nviol = if excl_holder { 1 } else { rng.gen_range(1..=2usize) };
+    let nby = rng.gen_range(3..=4usize);
+    let on_rayon = cfg!(feature = "parallel") && rng.gen_bool(0.5);
+    let ctl = StormCtl { seq: AtomicU64::new(0), done: AtomicBool::new(false), anomalies: AtomicUsize::new(0) };
+    let rids: Vec<Vec<shred::ResourceId>> = (1..=nt as u32).map(|ty| (0..nd as u32).map(|dy| d.rid(ty, dy)).collect()).collect();
+    let cis: Vec<usize> = (1..=nt as u32).map(|ty| d.ci(ty)).collect();
+    let world = d.w();
+    let k = nviol + nby;
+    let start = std::sync::Barrier::new(k);
+    let seeds: Vec<u64> = (0..k).map(|_| rng.gen()).collect();
+    let t0 = std::time::Instant::now();
+    let body = |t: usize| -> (Vec<SEv>, usize) {
+        let mut me = StormThread { t: t as u32 + 1, ctl: &ctl, world, rids: &rids, cis: &cis, kept: Vec::new(), cycle: Vec::new(), next_g: 0, ops: 0 };
+        let mut rng = StdRng::seed_from_u64(seeds[t]);
+        if t < nviol {
+            // ---- violator
+            let hold = if excl_holder { "fetch_mut" } else { "fetch" };
+            let (held, _, _) = me.fetch(hold, hold, 1, 0);
+            me.end_cycle(true);
+            start.wait();
+            let attempts: &[&'static str] = if excl_holder { &["fetch", "try_fetch", "fetch_mut", "try_fetch_mut"] } else { &["fetch_mut", "try_fetch_mut"] };
+            for i in 0..viol {
+                if ctl.anomalies.load(Ordering::Relaxed) >= 8 {
+                    break;
+                }
+                let op = attempts[rng.gen_range(0..attempts.len())];
+                let real = match op {
+                    "try_fetch" if i % 2 == 1 => "sd_optread",
+                    "try_fetch_mut" if i % 2 == 1 => "sd_optwrite",
+                    x => x,
+                };
+                let (g, k, why) = me.fetch(op, real, 1, 0);
+                let expected = held.is_none() || (k == "panic" && why == "borrow");
+                if let Some((gid, g)) = g {
+                    me.release(gid, g, 1, 0);
+                }
+                if !expected {
+                    ctl.anomalies.fetch_add(1, Ordering::Relaxed);
+                }
+                me.end_cycle(!expected || i < keep);
+            }
+            if t == 0 {
+                ctl.done.store(true, Ordering::SeqCst);
+            }
+            if let Some((gid, g)) = held {
+                me.release(gid, g, 1, 0);
+                me.end_cycle(true);
+            }
+        } else {
+            // ---- bystander: only fetches that conflict with nothing any thread ever holds
+            let mine: Option<(u32, u32)> = match t - nviol {
+                0 => Some((1, 1)),
+                1 => Some((2, 1)),
+                _ => None,
+            };
+            start.wait();
+            let mut i = 0usize;
+            while !ctl.done.load(Ordering::SeqCst) {
+                let mut ok = true;
+                let mut got: Vec<(u32, Box<dyn shredh::worldx::AnyGuard>, u32, u32)> = Vec::new();
+                let shared_ops: [(&'static str, &'static str, u32); 4] =
+                    [("fetch", "fetch", 0), ("try_fetch", "try_fetch", 0), ("try_fetch", "sd_optread", 0), ("try_fetch_by_id", "try_fetch_by_id", 0)];
+                for _ in 0..2 {
+                    let (op, real, dy) = shared_ops[rng.gen_range(0..4)];
+                    let (g, k, _) = me.fetch(op, real, 2, dy);
+                    ok &= k == "guard";
+                    if let Some((gid, g)) = g {
+                        got.push((gid, g, 2, dy));
+                    }
+                }
+                if let Some((ty, dy)) = mine {
+                    let (g, k, _) = me.fetch("try_fetch_mut_by_id", "try_fetch_mut_by_id", ty, dy);
+                    ok &= k == "guard";
+                    if let Some((gid, g)) = g {
+                        got.push((gid, g, ty, dy));
+                    }
+                }
+                while let Some((gid, g, ty, dy)) = got.pop() {
+                    me.release(gid, g, ty, dy);
+                }
+                if !ok {
+                    ctl.anomalies.fetch_add(1, Ordering::Relaxed);
+                }
+                me.end_cycle(!ok || i < keep);
+                i += 1;
+            }
+        }
+        (me.kept, me.ops)
+    };
+    let results: Vec<(Vec<SEv>, usize)> = if on_rayon {
+        storm_on_rayon(k, &body)
+    } else {
+        std::thread::scope(|s| {
+            let hs: Vec<_> = (0..k).map(|t| { let body = &body; s.spawn(move || body(t)) }).collect();
+            hs.into_iter().map(|h| h.join().expect("storm thread")).collect()
+        })
+    };
+    let wall = t0.elapsed().as_secs_f64();
+    let mut all: Vec<(u32, SEv)> = Vec::new();
+    let mut ops = 0usize;
+    for (t, (kept, n)) in results.into_iter().enumerate() {
+        ops += n;
+        all.extend(kept.into_iter().map(|e| (t as u32 + 1, e)));
+    }
+    all.sort_by_key(|(_, e)| e.seq);
+    evs.push(json!({"ev":"par","threads":k}));
+    let logged = all.len();
+    for (t, e) in all {
+        if e.call {
+            evs.push(json!({"ev":"tcall","t":t,"op":e.op,"targ":e.ty,"ty":e.ty,"dy":e.dy,"g":e.g}));
+        } else {
+            evs.push(json!({"ev":"tret","t":t,"k":e.k,"why":e.why,"g":e.g,"cl":e.cl}));
+        }
+    }
+    evs.push(json!({"ev":"sync","obs": d.observe()}));
+    if let Some(why) = &d.abort {
+        evs.push(json!({"ev":"abort","why":why}));
+    }
+    let st = json!({"violators":nviol,"violator_holds":if excl_holder {"exclusive"} else {"shared"},"bystanders":nby,"rayon":on_rayon,
+                    "operations":ops,"events_logged":logged,"unexpected_outcomes":ctl.anomalies.load(Ordering::Relaxed),"wall_s":wall});
+    (evs, st)
+}
+
+#[cfg(feature = "parallel")]
+fn storm_on_rayon(k: usize, body: &(dyn Fn(usize) -> (Vec<SEv>, usize) + Sync)) -> Vec<(Vec<SEv>, usize)> {
+    let pool = rayon::ThreadPoolBuilder::new().num_threads(k).build().unwrap();
+    let slots: Vec<Mutex<Option<(Vec<SEv>, usize)>>> = (0..k).map(|_| Mutex::new(None)).collect();
+    pool.scope(|s| {
+        for t in 0..k {
+            let slots = &slots;
+            s.spawn(move |_| {
+                *slots[t].lock().unwrap() = Some(body(t));
+            });
+        }
+    });
+    slots.into_iter().map(|m| m.into_inner().unwrap().expect("storm task")).collect()
+}
+#[cfg(not(feature = "parallel"))]
+fn storm_on_rayon(_: usize, _: &(dyn Fn(usize) -> (Vec<SEv>, usize) + Sync)) -> Vec<(Vec<SEv>, usize)> {
+    unreachable!()
 }
